@@ -27,12 +27,24 @@ func runC13(p *eng.Prog, r *eng.Report, tier string) {
 	// ---- C13.10 encoders emit field values verbatim --------------------------------
 	nLossy := lossyEmission(c, "C13.10", func(f *eng.Fn) bool { return strings.HasPrefix(f.Short, "stanza.") })
 	c.r.Floor("C13.10", "emitted texts in the stanza encoders", nLossy, 8)
-	nGate := emissionGatedBySibling(c, "C13.13", func(f *eng.Fn) bool { return strings.HasPrefix(f.Short, "stanza.") || strings.HasPrefix(f.Short, "stream.") })
+	nGate := emissionGatedBySibling(c, "C13.13", func(f *eng.Fn) bool {
+		return strings.HasPrefix(f.Short, "stanza.") || strings.HasPrefix(f.Short, "stream.")
+	})
 	c.r.Floor("C13.13", "uses of receiver fields in the stanza and stream encoders", nGate, 10)
-	nNm := qualifiedNamesStructured(c, "C13.12", func(f *eng.Fn) bool { return strings.HasPrefix(f.Short, "stanza.") || strings.HasPrefix(f.Short, "stream.") })
+	nNm := qualifiedNamesStructured(c, "C13.12", func(f *eng.Fn) bool {
+		return strings.HasPrefix(f.Short, "stanza.") || strings.HasPrefix(f.Short, "stream.")
+	})
 	c.r.Floor("C13.12", "xml.Name literals in the stanza and stream packages", nNm, 10)
+	nTg := tagsStructured(c, "C13.12", []string{"stanza.", "stream."})
+	c.r.Floor("C13.12", "xml struct tags in the stanza and stream packages", nTg, 20)
+	nNsD := namespacedDecodeTargets(c, "C13.14", func(f *eng.Fn) bool {
+		return strings.HasPrefix(f.Short, "stanza.") || strings.HasPrefix(f.Short, "stream.")
+	})
+	c.r.Floor("C13.14", "children decoded into namespaced targets", nNsD, 2)
 	// ---- C13.11 one list entry per decoded element (stanza and stream errors)
-	nApp := decodedEntryAppended(c, "C13.11", func(f *eng.Fn) bool { return strings.HasPrefix(f.Short, "stanza.") || strings.HasPrefix(f.Short, "stream.") })
+	nApp := decodedEntryAppended(c, "C13.11", func(f *eng.Fn) bool {
+		return strings.HasPrefix(f.Short, "stanza.") || strings.HasPrefix(f.Short, "stream.")
+	})
 	c.r.Floor("C13.11", "decoders that append decoded entries", nApp, 1)
 	// ---- C13.1 reply helpers -------------------------------------------------------
 	for _, k := range []struct{ fn, typ, wrap string }{
